@@ -43,10 +43,22 @@
  *        adding a pointer to the resource it guards and a list of any observer
  *        resource guards that get signals forwarded from this one.
  */
+struct cmb_resourceguard;
+
+/**
+ * @brief Function prototype for how a resource guard reacts to a signal that is
+ *        forwarded to it as an observer of some other guard.
+ * @memberof cmb_resourceguard
+ * @param rgp Pointer to the observing resource guard.
+ * @return `true` if some process was resumed, `false` otherwise.
+ */
+typedef bool (cmb_resourceguard_forward_func)(struct cmb_resourceguard *rgp);
+
 struct cmb_resourceguard {
     struct cmi_hashheap priority_queue;         /**< The base hashheap class */
     struct cmi_resourcebase *guarded_resource;  /**< The resource it guards */
     struct cmi_slist_head observers;            /**< Any other resource guards observing this one */
+    cmb_resourceguard_forward_func *forward;    /**< Reaction to a forwarded signal, `NULL` for `cmb_resourceguard_signal` */
 };
 
 /**
